@@ -329,7 +329,9 @@ def semi_singleton_metaclass(hashfunc: Callable | None = None) -> type:
             :return: A hash of the arguments.
             """
             jwargs = json.dumps(kwargs, sort_keys=True)
-            return hash((args, jwargs))
+            # return the arguments themselves, not their hash(): distinct
+            # argument values may well share a hash (e.g. -1 and -2)
+            return (args, jwargs)
 
     class _SemiSingleton(type):
         """
